@@ -7,6 +7,7 @@ import (
 	"bytes"
 	"context"
 	"fmt"
+	"io"
 	"mime/multipart"
 	"sync"
 
@@ -83,8 +84,29 @@ func multipartBody(gzProfile []byte) []byte {
 	return buf.Bytes()
 }
 
-// parse runs one of the exported parsers on the rendered profile.
-func parse(p *Prof, via int) (*wmodel.ProfileData, error) {
+// segReader delivers the body in segments of at most n bytes (n = 0: whatever is asked for).
+type segReader struct {
+	data []byte
+	n    int
+	pos  int
+}
+
+func (s *segReader) Read(p []byte) (int, error) {
+	if s.pos >= len(s.data) {
+		return 0, io.EOF
+	}
+	end := len(s.data)
+	if s.n > 0 && s.pos+s.n < end {
+		end = s.pos + s.n
+	}
+	k := copy(p, s.data[s.pos:end])
+	s.pos += k
+	return k, nil
+}
+
+// parse runs one of the exported parsers on the rendered profile; seg > 0 delivers the body seg bytes per Read
+// (seg < 0: in two halves).  The emitted ProfileData is only looked at after the parser's channel is closed.
+func parse(p *Prof, via int, seg ...int) (*wmodel.ProfileData, error) {
 	var body []byte
 	var err error
 	fn := unmarshal.UnmarshalBinaryStreamProfileProtoV2
@@ -104,7 +126,15 @@ func parse(p *Prof, via int) (*wmodel.ProfileData, error) {
 	var out *wmodel.ProfileData
 	var perr error
 	n := 0
-	for r := range fn(pushCtx(), bytes.NewReader(body), nil) {
+	var rd io.Reader = bytes.NewReader(body)
+	if len(seg) > 0 && seg[0] != 0 {
+		n := seg[0]
+		if n < 0 {
+			n = (len(body) + 1) / 2
+		}
+		rd = &segReader{data: body, n: n}
+	}
+	for r := range fn(pushCtx(), rd, nil) {
 		if r.Error != nil {
 			perr = r.Error
 			continue
